@@ -122,6 +122,29 @@ def stmts_src(stmts):
     return "\n".join(lines) + "\n"
 
 
+def def_lines(src):
+    """{line number of a decorated `def`: generation} of a generated source text"""
+    import ast as _ast
+
+    out = {}
+    for node in _ast.parse(src).body:
+        if not isinstance(node, _ast.FunctionDef):
+            continue
+        if node.name.startswith("mk_"):
+            for inner in node.body:
+                if isinstance(inner, _ast.FunctionDef):
+                    out[inner.lineno] = int(node.name[3:])
+        elif node.decorator_list:
+            for sub in _ast.walk(node):
+                if isinstance(sub, _ast.keyword) and sub.arg == "gen" and isinstance(sub.value, _ast.Constant):
+                    out[node.lineno] = int(sub.value.value)
+    return out
+
+
+def ctx_id(name):
+    return 0 if name == LIVE_CTX else int(name[len("file.s"):]) if name.startswith("file.s") else None
+
+
 KIND = {"state": 0, "event": 1, "time": 2, "service": 5}
 TRIG_CORO = ("TrigInfo.trigger_watch", "StateTriggerDecorator._cycle", "TimeTriggerDecorator._cycle")
 ACTION_CORO = ("do_func_call", "FunctionDecoratorManager._call", "do_service_call")
@@ -162,6 +185,8 @@ class Driver:
     def __init__(self, case):
         self.case = case
         self.gate = None
+        self.starts = []      # (context id, [def line numbers in iteration order of the delayed-start sets]) since the last snapshot
+        self.lines = {}       # context id -> {def line: generation} of the source evaluated last
         self.orders = {}      # marker -> list of names in the iteration order State.notify_del saw
         self.mtime = 1000.0
         self.unloaded = False
@@ -266,14 +291,18 @@ class Driver:
             if self.gate is not None:
                 self.gate.event.set()
         elif k == "cell":
-            err = await self.live_exec(env, st.get("mode", "cell"), stmts_src(st["stmts"]))
+            src = stmts_src(st["stmts"])
+            self.lines[0] = def_lines(src)
+            err = await self.live_exec(env, st.get("mode", "cell"), src)
         elif k == "files":
             for name, stmts in sorted(st["write"].items()):
                 if stmts is None:
                     env.remove(f"{name}.py")
                 else:
                     self.mtime += 10.0
-                    env.write(f"{name}.py", "lst = []\ndct = {}\n" + stmts_src(stmts), mtime=self.mtime)
+                    src = "lst = []\ndct = {}\n" + stmts_src(stmts)
+                    self.lines[int(name[1:])] = def_lines(src)
+                    env.write(f"{name}.py", src, mtime=self.mtime)
             if st.get("reload") == "all":
                 await env.reload("*")
             else:
@@ -317,6 +346,18 @@ class Driver:
                         drv.orders.setdefault(n, order)
             return orig_del(cls, var_names, queue)
 
+        from custom_components.pyscript.global_ctx import GlobalContext
+
+        orig_start = GlobalContext.start
+
+        def rec_start(gself):
+            cid = ctx_id(gself.name)
+            if cid is not None:
+                linenos = [f.func_def.lineno for f in gself.triggers_delay_start] + [dm.eval_func.func_def.lineno for dm in gself.dms_delay_start]
+                drv.starts.append((cid, linenos))
+            return orig_start(gself)
+
+        GlobalContext.start = rec_start
         out = []
         State.notify_del = classmethod(rec_notify_del)
         svcmod = None
@@ -338,6 +379,13 @@ class Driver:
                     err = await self.do_step(env, st)
                     await self.quiesce(env)
                     snap = self.snapshot(env, n0)
+                    order = {}
+                    for cid, linenos in self.starts:
+                        l2g = self.lines.get(cid, {})
+                        order.setdefault(str(cid), [])
+                        order[str(cid)] += [l2g[ln] for ln in linenos if ln in l2g]
+                    self.starts = []
+                    snap["starts"] = order
                     if err:
                         snap["err"] = err
                     errs = [r[2][:300] for r in env.log.records[nlog:] if r[1] == "ERROR"]
@@ -346,6 +394,7 @@ class Driver:
                     out.append(snap)
         finally:
             State.notify_del = classmethod(orig_del)
+            GlobalContext.start = orig_start
             if svcmod is not None:
                 self.gate.event.set()
                 svcmod.State = self.gate.real
